@@ -119,6 +119,8 @@ func E1Tables() *an.Tables {
 			{ID: "cleanupLogic offsets->shift", Func: "(*Buffer).cleanupLogic", From: "call:(*Buffer).consumerOffsets", To: "write:Buffer.offset", Lock: "Buffer.mutex", Why: "the shift is applied to the state the cleaner saw"},
 			{ID: "cleanupLogic reslice->base", Func: "(*Buffer).cleanupLogic", From: "write:Buffer.buffer", To: "write:Buffer.offset", Lock: "Buffer.mutex", Why: "buffer and base offset move together"},
 			{ID: "get lookup->index", Func: "(*Buffer).get", From: "read:Buffer.consumers[]", To: "read:Buffer.buffer[]", Lock: "Buffer.mutex", Why: "offset, base and element are read in one hold"},
+			// cleaner cooldown (C04): the decision to re-broadcast is taken in the hold that clears the cooldown
+			{ID: "cooldown clear->re-broadcast decision", Func: "(*Buffer).cleanup$*", From: "write:cell(*time.Timer)", To: "read:cell(bool)", Lock: cleanupMutex, Why: "a change seen between reading the flag and clearing the timer would set the flag again and never be re-broadcast"},
 			// Channel (C13)
 			{ID: "Channel.rollback read-modify-write", From: "read:Channel.rollback", To: "write:Channel.rollback", Lock: "Channel.mutex", Why: "replay counter updated in the hold in which it was read"},
 			{ID: "Channel.Get closed-check->take", Func: "(*Channel).Get$1", From: "read:Channel.ctx", To: "write:Channel.buffer", Lock: "Channel.mutex", Why: "nothing is taken from the source once closed"},
